@@ -209,6 +209,92 @@ fn run_subnormal(case: &mut Case) -> Outcome {
     Outcome::Pass
 }
 
+/// Orders beyond the small exhaustive range (the property is stated for every n >= 1) and matrices on which a pivoting
+/// rule that is only *almost* partial pivoting lets element growth compound.
+///  - "large": n in 13..=100, continuous random entries with a diagonal shift (well conditioned);
+///  - "growth trap": n in 8..=28, unit diagonal (random signs), every entry below the diagonal of column j equal to
+///    -c_j times the diagonal with 1.05 <= c_j <= 7.9, last column ones: with true partial pivoting the reference growth
+///    stays small, with a thresholded or lazy exchange rule it grows like prod (1 + c_j).
+/// Judged like every other float system: backward error <= BE_C n eps rho_ref, the two solvers agree.
+fn run_large(case: &mut Case) -> Outcome {
+    let trap = case.src.coin();
+    let n = if trap { case.src.urange(8, 28) } else { case.src.urange(13, 100) };
+    let mut a: M<f64> = vec![vec![0.0; n]; n];
+    // bulk data from a splitmix64 sequence seeded by two stream values (a pure function of the stream)
+    let mut sm: u64 = ((case.src.raw() as u64) << 32) | case.src.raw() as u64;
+    let mut un = move || -> f64 {
+        sm = sm.wrapping_add(0x9E3779B97F4A7C15);
+        let mut z = sm;
+        z = (z ^ (z >> 30)).wrapping_mul(0xBF58476D1CE4E5B9);
+        z = (z ^ (z >> 27)).wrapping_mul(0x94D049BB133111EB);
+        z ^= z >> 31;
+        2.0 * ((z >> 11) as f64 / (1u64 << 53) as f64) - 1.0
+    };
+    if trap {
+        let narrow = case.src.coin(); // all c_j below 2 (a rule with threshold 2) or up to 7.9
+        for j in 0..n {
+            let sgn = if un() < 0.0 { 1.0 } else { -1.0 };
+            let u = 0.5 * (un() + 1.0);
+            let c = if narrow { 1.05 + 0.93 * u } else { (1.05f64).max(7.9f64.powf(u)) };
+            a[j][j] = sgn;
+            for i in j + 1..n {
+                a[i][j] = -c * sgn;
+            }
+            a[j][n - 1] = if j == n - 1 { sgn } else { 1.0 };
+        }
+    } else {
+        let shift = case.src.f64_in(0.0, 1.0) * n as f64 * 0.25;
+        for i in 0..n {
+            for j in 0..n {
+                a[i][j] = un();
+            }
+            a[i][i] += if un() < 0.0 { shift } else { -shift };
+        }
+    }
+    let b: Vec<f64> = (0..n).map(|_| un()).collect();
+    let ac = mat_c(&a);
+    let info = refla::gepp(&ac, None);
+    let kappa = match cond_inf(&ac) {
+        Some(k) if k <= 1e10 => k,
+        _ => return Outcome::Discard("ill-conditioned-or-singular"),
+    };
+    if !(info.pivot_noise >= 64.0 * n as f64) {
+        return Outcome::Discard("singular to working precision under the applied scaling");
+    }
+    case.class(format!("f64 {} n in {}", if trap { "growth trap" } else { "large order" }, if n <= 28 { "8..=28" } else if n <= 64 { "29..=64" } else { "65..=100" }));
+    case.mark_nontrivial();
+    case.describe(|| format!("f64 {} n={} (reference growth {:.2e}, cond {:.2e}) first rows {:?} b[..4]={:?}", if trap { "growth trap" } else { "large order" }, n, info.growth, kappa, &a[..2.min(n)], &b[..4.min(n)]));
+    let bv = to_vector(&b);
+    let mut m1 = to_matrix(&a, n, n);
+    let mut m2 = to_matrix(&a, n, n);
+    let (xb, xl) = match (catch(|| m1.solve_basic(&bv)), catch(|| m2.solve_lu(&bv))) {
+        (Ok(x), Ok(y)) => (x.vec, y.vec),
+        (Err(e), _) => return Outcome::Fail(format!("solve_basic panicked on a nonsingular system of order {}: {}", n, e)),
+        (_, Err(e)) => return Outcome::Fail(format!("solve_lu panicked on a nonsingular system of order {}: {}", n, e)),
+    };
+    if xb.len() != n || xl.len() != n {
+        return Outcome::Fail(format!("result length {} / {} != n = {}", xb.len(), xl.len(), n));
+    }
+    if !all_finite(&xb) || !all_finite(&xl) {
+        return Outcome::Fail(format!("non-finite solution component (order {})", n));
+    }
+    let bc = vec_c(&b);
+    let unit = n as f64 * EPS * info.growth.max(1.0);
+    for (name, x) in [("solve_basic", &xb), ("solve_lu", &xl)] {
+        let be = refla::backward_error(&ac, &vec_c(x), &bc);
+        crate::calib::note("c01.large be/(n eps max(1,rho))", be / unit, || format!("{} n={} trap={}", name, n, trap));
+        if !(be <= BE_C * unit) {
+            return Outcome::Fail(format!("{}: normwise backward error {:.3e} > bound {:.3e} at order {} (reference growth {:.2e}); x[..4] = {:?}", name, be, BE_C * unit, n, info.growth, &x[..4.min(n)]));
+        }
+    }
+    let diff = xb.iter().zip(&xl).map(|(p, q)| (p - q).abs()).fold(0.0, f64::max);
+    let xn = xb.iter().chain(&xl).fold(0.0f64, |m, v| m.max(v.abs()));
+    if !(diff <= 4.0 * kappa * BE_C * unit * xn) {
+        return Outcome::Fail(format!("solvers disagree at order {}: |x_basic - x_lu| = {:.3e} > {:.3e} (kappa {:.2e})", n, diff, 4.0 * kappa * BE_C * unit * xn, kappa));
+    }
+    Outcome::Pass
+}
+
 fn info_growth(ac: &M<refla::C>) -> f64 {
     refla::gepp(ac, None).growth
 }
@@ -291,7 +377,7 @@ impl Prop for C01 {
     fn rule(&self) -> String {
         "random choice streams decode to (element type in {rat,f64,cmplx}, order n in 1..=8 (floats 1..=12 in the thorough tier), \
          matrix kind in {P*L*U, sparse+transversal, planted zero leading pivots, (permuted) triangular, scaled permutation, dense, \
-         tiny leading pivots 2^-27..2^-46, continuous}, optional exact power-of-two row/column scaling 2^+-26, right-hand side, optionally scaled by 2^j with |j| <= 600); one f64 case in 16 is a subnormal system \
+         tiny leading pivots 2^-27..2^-46, continuous}, optional exact power-of-two row/column scaling 2^+-26, right-hand side, optionally scaled by 2^j with |j| <= 600); one f64 case in 16 is a subnormal system, one in 16 an order beyond the small range (13..=100, well conditioned) or a growth trap of order 8..=28 (unit diagonal, -c_j below it, 1.05 <= c_j <= 7.9, last column ones) \
          (whole system times 2^-k, or chosen columns times 2^-k, 1026 <= k <= 1040, n <= 6, judged on the exactly up-scaled twin with an explicit underflow allowance); \
          singular (rat: exact determinant 0) or ill-conditioned (float: reference cond > 1e10) systems are discarded and counted. \
          Non-trivial: n >= 3 and the reference partial-pivoting elimination performs its a row exchange at some step k >= 1; \
@@ -316,10 +402,10 @@ impl Prop for C01 {
         match case.src.below(3) {
             0 => run_rat(case),
             1 => {
-                if case.src.below(16) == 0 {
-                    run_subnormal(case)
-                } else {
-                    run_t::<f64>(case)
+                match case.src.below(16) {
+                    0 => run_subnormal(case),
+                    1 => run_large(case),
+                    _ => run_t::<f64>(case),
                 }
             }
             _ => run_t::<Cmplx>(case),
